@@ -208,6 +208,8 @@ class SymEval:
                     return ("opt", ("arr", self.alg.atom(nm)))
                 if "dyn" in fty and "Fn" in fty or "Activation" in fty or "CostFunction" in fty or "Initializer" in fty:
                     return ("ufn?", nm) if fty.startswith("core::option::Option<") else ("ufn", nm)
+                if fty == self.fl:
+                    return ("s", self.alg.atom(nm))
                 return ("opaque", nm)
             base = self.ev(e["e"], env)
             idx = e.get("idx")
@@ -251,7 +253,11 @@ class SymEval:
         if k == "Call":
             return self.call(e, env)
         if k == "NamedConst":
-            return ("unk", "constant %s" % e.get("def"))
+            d = e.get("def") or ""
+            last = d.rsplit("::", 1)[-1]
+            if last in ("EPSILON", "MIN_POSITIVE", "MAX") and ("f64" in d or "f32" in d):
+                return ("s", self.alg.atom("const+:%s" % last))      # a positive constant of the float type
+            return ("unk", "constant %s" % d)
         return ("unk", "expression kind %s" % k)
 
     def ev_if(self, e, env):
@@ -447,6 +453,23 @@ class SymEval:
                         if xx[0] in ("s", "v", "arr") and not isinstance(xx[1], PW):
                             self.divisors.append(xx[1])
                 return self.map1(x, lambda v: v.powlf(pl))
+            if m in ("max", "min") and len(args) == 2:
+                # a clamp: piecewise, with the condition as a symbol (the shape relu uses)
+                y = self.ev(args[1], env)
+                outs = []
+                for xx in self.alts(x):
+                    for yy in self.alts(y):
+                        if xx[0] not in ("s", "v", "arr") or yy[0] != "s" or isinstance(xx[1], PW) or isinstance(yy[1], PW):
+                            outs.append(("unk", "clamp of %s by %s" % (xx[0], yy[0])))
+                            continue
+                        if m == "max" and not yy[1].atoms():
+                            const = yy[1].n.t.get((), 0) if yy[1].d == Poly.const(1) else None
+                            if const is not None and const < 0:
+                                outs.append(("unk", "lower clamp at a negative constant (outside or at the edge of the domains judged here)"))
+                                continue
+                        cond = "Gt(%r)" % (xx[1] - yy[1])
+                        outs.append((xx[0], PW(cond, xx[1], yy[1]) if m == "max" else PW(cond, yy[1], xx[1])))
+                return self.mk_alt(outs)
             if m == "sqrt":
                 return self.map1(x, lambda v: v.powlf(lf(__import__("fractions").Fraction(1, 2))))
             return ("unk", "float method %s" % m)
